@@ -65,35 +65,48 @@ inductive BodyRes
   | needMore (out : Array UInt8) (rest : Bits) (st : Stats)
   | corrupt (out : Array UInt8) (rest : Bits) (st : Stats)
 
+inductive StepRes
+  | cont (out : Array UInt8) (rest : Bits) (st : Stats)      -- one literal or one copy decoded
+  | eob (out : Array UInt8) (rest : Bits) (st : Stats)
+  | needMore (out : Array UInt8) (rest : Bits) (st : Stats)
+  | corrupt (out : Array UInt8) (rest : Bits) (st : Stats)
+
+/-- one symbol of a Huffman-coded block: a literal, the end-of-block code, or a length/distance pair -/
+def bodyStep (lit dist : List (Nat × Bits)) (bs : Bits) (out : Array UInt8) (st : Stats) : StepRes :=
+  match decodeSym lit bs with
+  | .needMore => .needMore out bs st
+  | .invalid => .corrupt out bs st
+  | .sym s r =>
+    if s < 256 then .cont (out.push (UInt8.ofNat s)) r { st with lits := st.lits + 1 }
+    else if s = 256 then .eob out r st
+    else if s > 285 then .corrupt out bs st
+    else
+      match takeField (lenExtra.getD (s - 257) 0) r with
+      | none => .needMore out bs st
+      | some (e, r1) =>
+        let len := lenBase.getD (s - 257) 0 + e
+        match decodeSym dist r1 with
+        | .needMore => .needMore out bs st
+        | .invalid => .corrupt out bs st
+        | .sym ds r2 =>
+          if ds > 29 then .corrupt out bs st
+          else
+            match takeField (distExtra.getD ds 0) r2 with
+            | none => .needMore out bs st
+            | some (de, r3) =>
+              let d := distBase.getD ds 0 + de
+              if d > out.size then .corrupt out bs st
+              else .cont (copyBack out d len) r3 { st with refs := st.refs + 1, maxDist := max st.maxDist d }
+
 /-- the symbols of one Huffman-coded block, up to and including end-of-block -/
 def decodeBody (lit dist : List (Nat × Bits)) : Nat → Bits → Array UInt8 → Stats → BodyRes
   | 0, bs, out, st => .corrupt out bs st
   | fuel + 1, bs, out, st =>
-    match decodeSym lit bs with
-    | .needMore => .needMore out bs st
-    | .invalid => .corrupt out bs st
-    | .sym s r =>
-      if s < 256 then decodeBody lit dist fuel r (out.push (UInt8.ofNat s)) { st with lits := st.lits + 1 }
-      else if s = 256 then .eob out r st
-      else if s > 285 then .corrupt out bs st
-      else
-        match takeField (lenExtra.getD (s - 257) 0) r with
-        | none => .needMore out bs st
-        | some (e, r1) =>
-          let len := lenBase.getD (s - 257) 0 + e
-          match decodeSym dist r1 with
-          | .needMore => .needMore out bs st
-          | .invalid => .corrupt out bs st
-          | .sym ds r2 =>
-            if ds > 29 then .corrupt out bs st
-            else
-              match takeField (distExtra.getD ds 0) r2 with
-              | none => .needMore out bs st
-              | some (de, r3) =>
-                let d := distBase.getD ds 0 + de
-                if d > out.size then .corrupt out bs st
-                else decodeBody lit dist fuel r3 (copyBack out d len)
-                      { st with refs := st.refs + 1, maxDist := max st.maxDist d }
+    match bodyStep lit dist bs out st with
+    | .cont o r s => decodeBody lit dist fuel r o s
+    | .eob o r s => .eob o r s
+    | .needMore o r s => .needMore o r s
+    | .corrupt o r s => .corrupt o r s
 
 inductive LensRes
   | ok (lens : List Nat) (rest : Bits)
@@ -173,56 +186,69 @@ def readDynHeader (mode : Mode) (bs : Bits) : HdrRes :=
             if !lensOK mode ll || !lensOK mode dl then .corrupt
             else .ok ll dl r5
 
-/-- all blocks of a stream. `fuel` bounds the number of blocks (each consumes at least 3 bits). -/
-def inflateBlocks (mode : Mode) : Nat → Bits → Array UInt8 → Stats → Result
-  | 0, bs, out, st => .corrupt out bs st
-  | fuel + 1, bs, out, st =>
-    match takeField 1 bs with
-    | none => .needMore out bs st true
-    | some (bfinal, r0) =>
-    match takeField 2 r0 with
-    | none => .needMore out bs st true
-    | some (btype, r1) =>
-      let st1 := { st with blocks := st.blocks + 1 }
-      let next := fun (out : Array UInt8) (r : Bits) (st : Stats) =>
-        if bfinal = 1 then Result.done out r st else inflateBlocks mode fuel r out st
-      if btype = 0 then
-        -- stored: skip to the byte boundary (the stream is a whole number of bytes)
-        let r2 := r1.drop (r1.length % 8)
-        match takeField 16 r2 with
-        | none => .needMore out bs st1 false
-        | some (len, r3) =>
-        match takeField 16 r3 with
-        | none => .needMore out bs st1 false
-        | some (nlen, r4) =>
-          if len + nlen ≠ 65535 then .corrupt out bs st1
-          else if r4.length < 8 * len then
-            -- deliver what is there, then ask for more
-            let avail := r4.length / 8
-            let data := (List.range avail).map fun i => UInt8.ofNat (bitsToNat ((r4.drop (8 * i)).take 8))
-            .needMore (out ++ data.toArray) [] st1 false
-          else
-            let data := (List.range len).map fun i => UInt8.ofNat (bitsToNat ((r4.drop (8 * i)).take 8))
-            next (out ++ data.toArray) (r4.drop (8 * len)) { st1 with stored := st1.stored + 1 }
-      else if btype = 1 then
-        match decodeBody (canonical fixedLitLens) (canonical (fixedDistLens ++ [5, 5])) (r1.length + 1) r1 out st1 with
+inductive BlockRes
+  | next (final : Bool) (out : Array UInt8) (rest : Bits) (st : Stats)   -- one complete block decoded
+  | needMore (out : Array UInt8) (rest : Bits) (st : Stats) (atBlockStart : Bool)
+  | corrupt (out : Array UInt8) (rest : Bits) (st : Stats)
+
+/-- the bytes of a stored block's payload -/
+def bytesOfBits (bs : Bits) (n : Nat) : List UInt8 :=
+  (List.range n).map fun i => UInt8.ofNat (bitsToNat ((bs.drop (8 * i)).take 8))
+
+/-- one block. `pos` is the absolute bit position of `bs` in the stream (needed for the byte alignment of
+    stored blocks). -/
+def inflateBlock (mode : Mode) (pos : Nat) (bs : Bits) (out : Array UInt8) (st : Stats) : BlockRes :=
+  match takeField 1 bs with
+  | none => .needMore out bs st true
+  | some (bfinal, r0) =>
+  match takeField 2 r0 with
+  | none => .needMore out bs st true
+  | some (btype, r1) =>
+    let st1 := { st with blocks := st.blocks + 1 }
+    if btype = 0 then
+      -- stored: skip to the next byte boundary
+      let r2 := r1.drop ((8 - (pos + 3) % 8) % 8)
+      match takeField 16 r2 with
+      | none => .needMore out bs st1 false
+      | some (len, r3) =>
+      match takeField 16 r3 with
+      | none => .needMore out bs st1 false
+      | some (nlen, r4) =>
+        if len + nlen ≠ 65535 then .corrupt out bs st1
+        else if r4.length < 8 * len then
+          -- deliver what is there, then ask for more
+          .needMore (out ++ (bytesOfBits r4 (r4.length / 8)).toArray) [] st1 false
+        else
+          .next (bfinal = 1) (out ++ (bytesOfBits r4 len).toArray) (r4.drop (8 * len)) { st1 with stored := st1.stored + 1 }
+    else if btype = 1 then
+      match decodeBody (canonical fixedLitLens) (canonical (fixedDistLens ++ [5, 5])) (r1.length + 1) r1 out st1 with
+      | .needMore o r s => .needMore o r s false
+      | .corrupt o r s => .corrupt o r s
+      | .eob o r s => .next (bfinal = 1) o r { s with fixed := s.fixed + 1 }
+    else if btype = 2 then
+      match readDynHeader mode r1 with
+      | .needMore => .needMore out bs st1 false
+      | .corrupt => .corrupt out bs st1
+      | .ok ll dl r2 =>
+        match decodeBody (canonical ll) (canonical dl) (r2.length + 1) r2 out st1 with
         | .needMore o r s => .needMore o r s false
         | .corrupt o r s => .corrupt o r s
-        | .eob o r s => next o r { s with fixed := s.fixed + 1 }
-      else if btype = 2 then
-        match readDynHeader mode r1 with
-        | .needMore => .needMore out bs st1 false
-        | .corrupt => .corrupt out bs st1
-        | .ok ll dl r2 =>
-          match decodeBody (canonical ll) (canonical dl) (r2.length + 1) r2 out st1 with
-          | .needMore o r s => .needMore o r s false
-          | .corrupt o r s => .corrupt o r s
-          | .eob o r s => next o r { s with dynamic := s.dynamic + 1 }
-      else .corrupt out bs st1
+        | .eob o r s => .next (bfinal = 1) o r { s with dynamic := s.dynamic + 1 }
+    else .corrupt out bs st1
+
+/-- all blocks of a stream. `fuel` bounds the number of blocks (each consumes at least 3 bits). -/
+def inflateBlocks (mode : Mode) : Nat → Nat → Bits → Array UInt8 → Stats → Result
+  | 0, _, bs, out, st => .corrupt out bs st
+  | fuel + 1, pos, bs, out, st =>
+    match inflateBlock mode pos bs out st with
+    | .needMore o r s a => .needMore o r s a
+    | .corrupt o r s => .corrupt o r s
+    | .next final o r s =>
+      if final then .done o r s else inflateBlocks mode fuel (pos + (bs.length - r.length)) r o s
 
 /-- decode one DEFLATE stream from the start of `bytes`, with an optional preset dictionary -/
 def inflate (mode : Mode) (dict : List UInt8) (bytes : List UInt8) : Result :=
   let bs := bytesToBits bytes
-  inflateBlocks mode (bs.length + 1) bs dict.toArray {}
+  inflateBlocks mode (bs.length + 1) 0 bs dict.toArray {}
 
 end Fastgo.Spec
